@@ -299,6 +299,9 @@ func RunC16(d *Driver) *Report {
 			r.Disagree(Case{Stream: "expr-compile", Input: src, Real: real, Model: model})
 		}
 	}
+	// --- 1b. statement fragment (Props/C16Stmt.lean)
+	nstmt := c16Statements(r, ask, rng, nexpr/4)
+	r.Rule += fmt.Sprintf("; %d generated statement programs (assignments, if / else-if / else, nested while with break, on num and bool globals): real compiler's instruction sequence with jump targets as instruction indices, real VM's and real evaluator's final globals compared with Model/StmtVM.lean", nstmt)
 	// --- 0. corpus: witnesses of recorded findings and minimised past failures run first
 	for _, w := range Corpus("C16") {
 		c16Diff(r, w.Src, "corpus:"+w.Name, known)
